@@ -1,4 +1,5 @@
 """C19 - help text and default command line.   Case layout: see coq/C19/Model.v (run_case) / harness/h_c19.cpp.
+The groups of a case are OptionGroups handed to OptionContext::add in this order; captions may repeat (merged by add).
 
 The oracle is an independent python reading of the property: it rebuilds, from the option specs alone, the entry
 every visible option must have in the description (name, alias, argument name, negation marker, substituted
@@ -18,6 +19,9 @@ RULE = ('cases = (active level 0..6, prefix size 0..80, 0..4 groups (levels 0..5
         '35 % of the contexts are put together with 1..3 adds that are split or REFUSED in between (a piece of a group ending in an option whose long name or alias '
         'clashes with an option registered earlier + 0..3 further options; DuplicateOption caught, remaining pieces/groups added afterwards): the context must '
         'list exactly the options it registered; '
+        '30 % of the contexts are 2..6 adds whose CAPTIONS REPEAT with different levels (both orders, other groups in between, the caption-less main group extended later, '
+        'equal levels as control, active level at / between / below the levels of the repeated caption): OptionContext::add merges them, the merged group must be shown '
+        'iff some part has a level <= the active level (level = minimum) - the model performs the same merge, the oracle computes it on its own; '
         'non-trivial = at least one option is visible at the active level; distinct = distinct case tuples')
 TRUSTED_BASE = ['sprintf / vector<char> / std::string are modelled (sprintf: the four directives that occur, "write k bytes and a NUL")',
                 'props/C19.py reference rendering (oracle on the implementation)']
@@ -28,7 +32,9 @@ TECHNIQUE = 'Coq proof about an executable model of the three formatters, descri
 DESIGN_REF = 'DESIGN.md section 5, C19'
 LEVEL_TEXT = ('Machine-checked proofs (Coq): no sprintf of DefaultFormat::format writes outside the bufSize-sized vector for any name/argument/alias/flag '
               'combination and any maxW; the description lists exactly the visible options once with their decorations and substituted placeholders; '
-              'defaults() mentions exactly the visible options with a default. The model is tied to the code by differential correspondence (ASan/UBSan build) '
+              'defaults() mentions exactly the visible options with a default; for a context put together by any sequence of OptionContext::add calls (groups with equal '
+              'captions merged, level = minimum) an option is listed at level L iff its own level <= L and some group of its caption was given a level <= L, in any order of the adds. '
+              'The model is tied to the code by differential correspondence (ASan/UBSan build) '
               'and an independent python oracle that also runs the real parseCommandString on the real defaults().')
 LEVEL_NOTE = 'The default command line parses back only for command-line safe defaults (known findings for blank / quote / backslash / empty defaults).'
 
@@ -164,6 +170,25 @@ def order(groups):
     return list(range(1, len(groups))) + ([0] if groups else [])
 
 
+def merged(pieces):
+    """The groups of the case are handed to OptionContext::add one after the other; groups with EQUAL CAPTIONS are one group of the
+    context.  What the property demands of it (independent of the model): the group appears where its caption was added first, lists
+    the options of all its parts in the order of the adds, and is shown at active level L iff SOME part was given a level <= L
+    (an option is listed iff its own level <= L and the level of its group <= L) - i.e. the group's level is the minimum."""
+    out = []
+    for g in pieces:
+        for m in out:
+            if m['cap'] == g['cap']:
+                m['opts'] = m['opts'] + g['opts']
+                m['levels'].append(g['level'])
+                break
+        else:
+            out.append({'cap': g['cap'], 'opts': list(g['opts']), 'levels': [g['level']]})
+    for m in out:
+        m['level'] = min(m['levels'])
+    return out
+
+
 def safe_default(o):
     d = o['dflt']
     if not d and not o['implicit']:
@@ -197,7 +222,8 @@ def oracle(c, obs):
     def tstr():
         n = take(1)
         return take(n[0]) if n else None
-    allopts = [o for g in groups for o in g['opts']]
+    allopts = [o for g in groups for o in g['opts']]          # registration order = order of the adds
+    pieces, groups = groups, merged(groups)
     for o in allopts:
         nm = tstr()
         rest = take(3)
@@ -244,12 +270,7 @@ def oracle(c, obs):
         sig.append(kind)
     # ---- defaults(): mentions exactly the visible options with a default
     exp_defs, line, want = [], prefix, []
-    idx = {}
-    k = 0
-    for g in groups:
-        for o in g['opts']:
-            idx[id(o)] = k
-            k += 1
+    idx = {id(o): k for k, o in enumerate(allopts)}
     for gi in order(groups):
         g = groups[gi]
         if g['level'] > dl:
@@ -286,7 +307,7 @@ def oracle(c, obs):
 def nontrivial(c, obs):
     active, prefix, groups = decode(c)
     dl = min(active, LEVEL_ALL)
-    return any(g['level'] <= dl and o['level'] <= dl for g in groups for o in g['opts'])
+    return any(g['level'] <= dl and o['level'] <= dl for g in merged(groups) for o in g['opts'])
 
 
 # ---------------------------------------------------------------- generation
@@ -326,21 +347,57 @@ def rand_text(rnd, n, pct=True):
     return ''.join(out)[:n] if n else ''
 
 
-def gen_case(rnd, p_unsafe, p_refused=False):
+def merge_plan(rnd):
+    """captions and levels of 2..6 adds in which captions REPEAT: same caption with different levels in both orders (low first / high
+    first), other groups in between, the caption-less main group extended later by a part of another level, equal levels as control,
+    and an active level chosen around the levels of a repeated caption (below the lowest, between, at / above the highest)."""
+    pool = rnd.choice([['', 'Search'], ['', 'Search', 'Other'], ['Search', 'Other'], ['Search', '', 'Other'], ['A', 'A ', 'a']])
+    ng = rnd.choice([2, 2, 3, 3, 4, 5, 6])
+    caps = [rnd.choice(pool) for _ in range(ng)]
+    if rnd.random() < 0.5:
+        caps[0] = ''                                        # caption-less main group first ...
+        if ng > 2 and rnd.random() < 0.7:
+            caps[rnd.randrange(2, ng)] = ''                 # ... extended later, another group in between
+    if len(set(caps)) == len(caps):
+        caps[-1] = caps[rnd.randrange(ng - 1)]              # at least one caption repeats
+    levels, seen = [], {}
+    for cp in caps:
+        if cp in seen:
+            r = rnd.random()
+            lv = seen[cp][-1] if r < 0.2 else rnd.choice([x for x in range(6) if x != seen[cp][-1]])   # 20 % equal levels (control)
+        else:
+            lv = rnd.choice([0, 0, 1, 2, 3, 4, 5])
+        seen.setdefault(cp, []).append(lv)
+        levels.append(lv)
+    rep = [v for v in seen.values() if len(v) > 1]
+    lv = rnd.choice(rep)
+    active = rnd.choice([min(lv), min(lv), max(min(lv), max(lv) - 1), max(lv), max(0, min(lv) - 1), rnd.choice([0, 1, 2, 3, 4, 5, 6])])
+    return active, caps, levels
+
+
+def gen_case(rnd, p_unsafe, p_refused=False, p_merge=False):
     active = rnd.choice([0, 0, 1, 2, 3, 4, 4, 5, 6])
     prefix = rnd.choice([0, 0, 1, 8, 20, 40, 60, 77, 78, 79, 80])
     ng = rnd.choice([0, 1, 1, 2, 2, 3, 4])
+    plan = None
+    if p_merge:
+        active, pcaps, plevels = merge_plan(rnd)
+        ng, plan = len(pcaps), (pcaps, plevels)
     enc = [active, prefix, ng]
     used, aliases, caps = set(), set(), set()
     counts = []
     for g in range(ng):
-        while True:
+        while plan is None:
             cap = rnd.choice(['', 'Basic Options', 'G%d' % g, rand_text(rnd, rnd.randint(1, 30), False)])
             if cap not in caps:
                 caps.add(cap)
                 break
-        enc += enc_str(cap) + [rnd.choice([0, 0, 1, 2, 3, 4, 5])]
-        no = rnd.choice([0, 1, 2, 3, 4, 6])
+        if plan is None:
+            enc += enc_str(cap) + [rnd.choice([0, 0, 1, 2, 3, 4, 5])]
+            no = rnd.choice([0, 1, 2, 3, 4, 6])
+        else:
+            enc += enc_str(plan[0][g]) + [plan[1][g]]
+            no = rnd.choice([0, 1, 1, 2, 2, 3])
         enc += [no]
         counts.append(no)
         for _ in range(no):
@@ -352,7 +409,7 @@ def gen_case(rnd, p_unsafe, p_refused=False):
                     aliases.add(a)
                     alias = ord(a)
             neg = 1 if rnd.random() < 0.35 else 0
-            level = rnd.choice([0, 0, 0, 1, 2, 3, 4, 5])
+            level = rnd.choice([0, 0, 0, 1, 2, 3, 4, 5] if plan is None else [0, 0, 0, 0, 0, 1, 2, min(active, 5), 5])
             flag = 1 if rnd.random() < 0.35 else 0
             enc += enc_str(name) + [alias, neg, level, flag]
             r = rnd.random()
@@ -401,8 +458,10 @@ def gen(seed, tier):
     while len(out) < total:
         unsafe = rnd.random() < 0.15
         refused = rnd.random() < 0.35
-        out.append((gen_case(rnd, 0.5 if unsafe else 0.0, refused),
-                    {'kind': ('random-unsafe-defaults' if unsafe else 'random-safe-defaults') + ('-refused-adds' if refused else '')}))
+        merge = rnd.random() < 0.3
+        out.append((gen_case(rnd, 0.5 if unsafe else 0.0, refused, merge),
+                    {'kind': ('random-unsafe-defaults' if unsafe else 'random-safe-defaults') + ('-refused-adds' if refused else '')
+                     + ('-equal-captions' if merge else '')}))
     return out
 
 
@@ -433,6 +492,34 @@ FIXED = [
     + enc_str('Empty') + [0, 0] + enc_str('Extra') + [0, 2] + _opt('gamma', arg='<n>', dflt='3', desc='third [%D]') + _opt('delta', arg='<n>', dflt='4', desc='fourth [%D]')
     + [4, 1, 0, 1, 1, 2, 2, 1, 2, 0, 0, 2, 2, 3, 0, 1, 0, 1, 0, 0, 3],
 ]
+
+
+def _merge_fixed():
+    """adds with EQUAL captions and different levels (merged by OptionContext::add: level = the smaller one), every active level 0..5"""
+    def o(name, level=0, **kw):
+        return _opt(name, level=level, arg='<n>', dflt=kw.get('dflt', '1'), desc='value of %A, default %D')
+    shapes = [
+        # hidden part first, visible part second / the reverse / another group in between / the main group extended later / equal levels
+        [('Search', 2, [o('deep')]), ('Search', 0, [o('fast'), o('slow', 1)])],
+        [('Search', 0, [o('fast'), o('slow', 1)]), ('Search', 2, [o('deep')])],
+        [('Search', 3, [o('deep')]), ('Other', 1, [o('misc')]), ('Search', 1, [o('fast', 0), o('slow', 2)])],
+        [('', 0, [o('help')]), ('Search', 1, [o('fast')]), ('', 2, [o('verbose'), o('quiet', 3)])],
+        [('', 2, [o('verbose')]), ('Search', 1, [o('fast')]), ('', 0, [o('help')]), ('Search', 3, [o('deep')]), ('Search', 0, [])],
+        [('Search', 1, [o('fast')]), ('Search', 1, [o('deep')])],
+    ]
+    out = []
+    for sh in shapes:
+        for active in range(6):
+            e = [active, 4, len(sh)]
+            for cap, lv, os_ in sh:
+                e += enc_str(cap) + [lv, len(os_)]
+                for x in os_:
+                    e += x
+            out.append(e)
+    return out
+
+
+FIXED += _merge_fixed()
 
 
 def encode(active, prefix, groups, dirs=()):
@@ -494,4 +581,4 @@ def shrink(case, fails):
 
 
 def mutate(case, rnd):
-    return [gen_case(rnd, 0.0, rnd.random() < 0.35) for _ in range(40)]
+    return [gen_case(rnd, 0.0, rnd.random() < 0.35, rnd.random() < 0.4) for _ in range(40)]
